@@ -5,6 +5,7 @@ package verifharness
 // projection of the implementation state that spec/ChfSeqTrace.tla judges.
 
 import (
+	"net/url"
 	"bufio"
 	"encoding/json"
 	"fmt"
@@ -43,6 +44,7 @@ type Step struct {
 	S       string   `json:"s"`
 	C       string   `json:"c"`
 	Onetime bool     `json:"onetime"`
+	Ett     string   `json:"ett"` // oneTimeEventType ("" = absent)
 	Usage   []Usage  `json:"usage"`
 	Trig    []string `json:"trig"`
 	Rg      string   `json:"rg"`
@@ -279,6 +281,10 @@ func (d *SeqDriver) runOne(b *Behaviour) {
 				if st.Onetime {
 					body["oneTimeEvent"] = true
 				}
+				if st.Ett != "" {
+					body["oneTimeEventType"] = st.Ett
+				}
+				args["ett"] = st.Ett
 				if st.Pad > 0 {
 					body["serviceSpecificationInfo"] = strings.Repeat("x", st.Pad)
 				}
@@ -312,7 +318,8 @@ func (d *SeqDriver) runOne(b *Behaviour) {
 				args["nfc"] = st.Nfc
 				args["ref"] = ref
 				bb, _ := json.Marshal(body)
-				r = env.Do("POST", base+"/"+ref+"/"+st.A, bb, nil, 30*time.Second)
+				// (the reference is one path segment: a consumer escapes it as such)
+				r = env.Do("POST", base+"/"+url.PathEscape(ref)+"/"+st.A, bb, nil, 30*time.Second)
 				res = httpRes(r)
 			}
 			// what the consumer may use next: the grant of this answer, per rating group
